@@ -9,16 +9,29 @@ import (
 )
 
 // Canon renders any result value (through pointers, unexported fields, nested slices and maps) as a string that depends only on the
-// values, never on addresses. With unordered = true the elements of every slice are sorted by their rendering (for functions whose
-// output order follows Go's map iteration and is therefore not a function of the input even in a sequential run).
+// values, never on addresses. With unordered = true the result list itself (the slice returned by the call, i.e. a slice that is the value or
+// a direct component of the call's result tuple) is sorted by the rendering of its elements; nothing nested deeper is sorted. That is for
+// the set-valued functions whose output order follows Go's map iteration and is therefore not a function of the input even in a
+// sequential run.
 func Canon(v interface{}, unordered bool) string {
 	var b strings.Builder
+	if t, ok := v.(tuple); ok {
+		b.WriteByte('(')
+		for i, x := range t {
+			if i > 0 {
+				b.WriteByte(' ')
+			}
+			canon(&b, reflect.ValueOf(x), unordered, 1)
+		}
+		b.WriteByte(')')
+		return b.String()
+	}
 	canon(&b, reflect.ValueOf(v), unordered, 0)
 	return b.String()
 }
 
-func canon(b *strings.Builder, v reflect.Value, unordered bool, depth int) {
-	if depth > 12 {
+func canon(b *strings.Builder, v reflect.Value, sortHere bool, depth int) {
+	if depth > 40 {
 		b.WriteString("<deep>")
 		return
 	}
@@ -43,7 +56,7 @@ func canon(b *strings.Builder, v reflect.Value, unordered bool, depth int) {
 			return
 		}
 		b.WriteByte('&')
-		canon(b, v.Elem(), unordered, depth+1)
+		canon(b, v.Elem(), false, depth+1)
 	case reflect.Interface:
 		if v.IsNil() {
 			b.WriteString("nil")
@@ -54,7 +67,7 @@ func canon(b *strings.Builder, v reflect.Value, unordered bool, depth int) {
 			fmt.Fprintf(b, "error(%q)", e)
 			return
 		}
-		canon(b, v.Elem(), unordered, depth+1)
+		canon(b, v.Elem(), false, depth+1)
 	case reflect.Slice, reflect.Array:
 		if v.Kind() == reflect.Slice && v.IsNil() {
 			b.WriteString("nil[]")
@@ -63,10 +76,10 @@ func canon(b *strings.Builder, v reflect.Value, unordered bool, depth int) {
 		parts := make([]string, v.Len())
 		for i := 0; i < v.Len(); i++ {
 			var sb strings.Builder
-			canon(&sb, v.Index(i), unordered, depth+1)
+			canon(&sb, v.Index(i), false, depth+1)
 			parts[i] = sb.String()
 		}
-		if unordered && v.Kind() == reflect.Slice {
+		if sortHere && v.Kind() == reflect.Slice {
 			sort.Strings(parts)
 		}
 		b.WriteByte('[')
@@ -77,9 +90,9 @@ func canon(b *strings.Builder, v reflect.Value, unordered bool, depth int) {
 		it := v.MapRange()
 		for it.Next() {
 			var sb strings.Builder
-			canon(&sb, it.Key(), unordered, depth+1)
+			canon(&sb, it.Key(), false, depth+1)
 			sb.WriteByte(':')
-			canon(&sb, it.Value(), unordered, depth+1)
+			canon(&sb, it.Value(), false, depth+1)
 			parts = append(parts, sb.String())
 		}
 		sort.Strings(parts)
@@ -91,7 +104,7 @@ func canon(b *strings.Builder, v reflect.Value, unordered bool, depth int) {
 			if i > 0 {
 				b.WriteByte(' ')
 			}
-			canon(b, v.Field(i), unordered, depth+1)
+			canon(b, v.Field(i), false, depth+1)
 		}
 		b.WriteByte('}')
 	case reflect.Func:
